@@ -841,12 +841,16 @@ func runStorage(profile string, seed int64, histories, steps int, out *Emitter) 
 		pr := polRatios[r.Intn(len(polRatios))]
 		var seeded map[string]*dataFile
 		noGauges := profile == "proofs" && hi%4 == 1
+		chunk := mix.chunk
+		if hi%5 == 3 && (profile == "proofs" || profile == "storage") {
+			chunk = 2048 // larger than the compiled-in default (1024): nothing may take the default for the chain's value
+		}
 		mut := func(a *app.JackalApp, gs app.GenesisState, users []sdk.AccAddress) {
 			cdc := a.AppCodec()
 			sg := sttypes.DefaultGenesis()
 			sg.Params.ProofWindow = mix.proofWindow + int64(r.Intn(4))
 			sg.Params.CheckWindow = mix.checkWindow + int64(r.Intn(5))
-			sg.Params.ChunkSize = mix.chunk
+			sg.Params.ChunkSize = chunk
 			sg.Params.PolRatio, sg.Params.ReferralCommission = pr[0], pr[1]
 			sg.Params.AttestFormSize = []int64{1, 1, 2, 2, 3, 4}[r.Intn(6)]
 			sg.Params.AttestMinToPass = int64(r.Intn(int(sg.Params.AttestFormSize) + 1))
@@ -859,9 +863,9 @@ func runStorage(profile string, seed int64, histories, steps int, out *Emitter) 
 				// files paid once whose term ran out long ago (as an exported genesis of an old chain carries
 				// them): nothing removes them, providers may go on proving them
 				for n := 1 + r2.Intn(2); n > 0; n-- {
-					data := make([]byte, 1+r2.Intn(int(3*mix.chunk)))
+					data := make([]byte, 1+r2.Intn(int(3*chunk)))
 					r2.Read(data)
-					df := mkDataFile(data, mix.chunk)
+					df := mkDataFile(data, chunk)
 					seeded[hex.EncodeToString(df.root)] = df
 					sg.FileList = append(sg.FileList, sttypes.UnifiedFile{Merkle: df.root, Owner: users[r2.Intn(len(users))].String(), Start: 0,
 						Expires: []int64{1, 3, 20, 60}[r2.Intn(4)], FileSize: int64(len(data)), ProofInterval: sg.Params.ProofWindow, ProofType: 0,
